@@ -235,6 +235,42 @@ def run(ctx):
             if d:
                 ctx.violation(f"{name} changed the result (structure touching opposite faces): " + d,
                               {"cfg": cfg, "pred": p, "ref": r, "transform": name, "pred2": p2, "ref2": r2})
+    # neighbouring structures whose predictions LEAK into each other's reference by several voxels while both pairs still match
+    # (semantic input: flips renumber the components, nothing else changes)
+    for _ in range(ctx.scale(30, 250)):
+        la, gap, lb, leak = rng.randint(9, 14), rng.randint(1, 2), rng.randint(11, 16), rng.randint(3, 6)
+        h = rng.choice([1, 2, 3])
+        w = 2 + la + gap + lb + rng.randint(1, 3)
+        r = np.zeros((h, w), "uint8"); p = np.zeros((h, w), "uint8")
+        a0 = rng.randint(0, 2)
+        b0 = a0 + la + gap
+        r[:, a0:a0 + la] = 1; r[:, b0:b0 + lb] = 1
+        p[:, a0:b0 + leak] = 1; p[:, b0 + leak + 1:b0 + lb] = 1
+        if rng.random() < 0.5:
+            p, r = np.ascontiguousarray(p[:, ::-1]), np.ascontiguousarray(r[:, ::-1])
+        if rng.random() < 0.3:
+            p, r = p.T.copy(), r.T.copy()
+        cfg = gen_cfg(rng, "semantic")
+        cfg["matcher"], cfg["m2o"], cfg["mmetric"], cfg["mthr"] = "naive", False, "IOU", rng.choice([0.3, 0.5])
+        cfg.pop("dmetric", None); cfg.pop("dthr", None)
+        cfg["backend"] = rng.choice([None, "cc3d", "scipy"])
+        try:
+            ip, ir = pipeline.approximate(p, r, cfg.get("backend"))
+            uniq = meta.unique_matching(cfg, ip, ir)
+        except Exception:
+            uniq = False
+        if not uniq:
+            continue
+        o1 = impl.evaluate(impl.make_evaluator(cfg), p.copy(), r.copy())
+        ts = [(f"flip{ax}", np.flip(p, ax), np.flip(r, ax)) for ax in range(2)] + [("transpose", p.T, r.T), ("pad", np.pad(p, 2), np.pad(r, 2))]
+        for name, p2, r2 in ts:
+            o2 = impl.evaluate(impl.make_evaluator(cfg), p2.copy(), r2.copy())
+            ctx.count({"cfg": cfg, "pred": p.tolist(), "ref": r.tolist(), "g": name}, True)
+            ctx.bump(f"leaking-neighbours/{name}")
+            d = meta.same_outcome(o1, o2)
+            if d:
+                ctx.violation(f"{name} changed the result (neighbouring structures, predictions reaching into each other's reference): " + d,
+                              {"cfg": cfg, "pred": p, "ref": r, "transform": name, "pred2": np.ascontiguousarray(p2), "ref2": np.ascontiguousarray(r2)})
     # the D15 witness (semantic input, two equal-score competing candidates; left-right flip)
     w = common.VERIF / "corpus" / "C10" / "d15.json"
     if w.exists():
